@@ -25,6 +25,7 @@ CONSTANTS Fam, Stride, Off
 Put(b, s, c) == [b EXCEPT ![s] = c]
 Mk(b, stm, cast, ep) == [board |-> b, stm |-> stm, cast |-> cast, ep |-> ep]
 Sel(n) == n % Stride = Off
+Mix(a, b, c, d) == (((a * 7919 + b * 104729) % 1000003) * 31 + c * 12983 + d * 1549) % 1000003
 
 ---------------------------------------------------------------------------
 KXKPieces == {"Q", "R", "B", "N", "P", "q", "r", "b", "n", "p"}
@@ -33,7 +34,7 @@ KXK(wk) ==
       <<bk, x, pc, stm>> \in
         { t \in Sq \X Sq \X KXKPieces \X Sides :
             /\ t[1] # wk /\ t[2] # wk /\ t[1] # t[2] /\ t[1] \notin KingT[wk]
-            /\ Sel(wk * 31 + t[1] * 7 + t[2] * 3 + (IF t[4] = White THEN 0 ELSE 1)) } }
+            /\ Sel(Mix(wk, t[1], t[2], PieceIdx(t[3]) * 2 + (IF t[4] = White THEN 0 ELSE 1))) } }
 
 \* two extra pieces: K+P v K+p and K+R v K+r (thorough tier)
 KXKY(wk) ==
@@ -41,7 +42,7 @@ KXKY(wk) ==
       <<bk, x, y, pp, stm>> \in
         { t \in Sq \X Sq \X Sq \X {<<"P", "p">>, <<"R", "r">>} \X Sides :
             /\ Cardinality({wk, t[1], t[2], t[3]}) = 4 /\ t[1] \notin KingT[wk]
-            /\ Sel(wk * 31 + t[1] * 7 + t[2] * 3 + t[3] * 5 + (IF t[5] = White THEN 0 ELSE 1)) } }
+            /\ Sel(Mix(wk, t[1], t[2] + 64 * t[3], IF t[5] = White THEN 0 ELSE 1)) } }
 
 CastleSkeleton(nb) ==
   LET b0 == Put(Put(Put(Put(Put(Put(EmptyBoard, 0, "R"), 4, "K"), 7, "R"), 56, "r"), 60, "k"), 63, "r")
@@ -51,7 +52,7 @@ Castle(x) ==
       <<pc, stm, cast, nb>> \in
         { t \in (KXKPieces \cup {"."}) \X Sides \X (SUBSET {"K", "Q", "k", "q"}) \X BOOLEAN :
             /\ CastleSkeleton(t[4])[x] = Empty
-            /\ Sel(x + Cardinality(t[3]) + (IF t[2] = White THEN 0 ELSE 1)) } }
+            /\ Sel(Mix(x, StateByte(t[3], 0), (IF t[1] = "." THEN 12 ELSE PieceIdx(t[1])), (IF t[2] = White THEN 0 ELSE 2) + (IF t[4] THEN 1 ELSE 0))) } }
 
 \* White to move, black pawn just played f7-f5 style double step to row 4
 EpW(wk) ==
@@ -62,10 +63,11 @@ EpW(wk) ==
             /\ Cardinality({wk, t[3], t[4], SqOf(4, t[1]), SqOf(4, t[1] + t[2])}) = 5
             /\ t[4] \notin {SqOf(5, t[1]), SqOf(6, t[1])}
             /\ t[3] \notin KingT[wk]
-            /\ Sel(wk * 13 + t[1] + t[4] * 3 + t[3]) } }
+            /\ Sel(Mix(wk, t[1] * 2 + (IF t[2] = 1 THEN 1 ELSE 0), t[4], t[3] * 8 + (IF t[5] \in WhitePieces \cup BlackPieces THEN PieceIdx(t[5]) ELSE 0))) } }
 Ep(wk) == EpW(wk) \cup { Mirror(p) : p \in EpW(wk) }
 
 PromoAhead == {".", "r", "n", "q"}
+AheadIdx(x) == CASE x = "." -> 0 [] x = "r" -> 1 [] x = "n" -> 2 [] x = "q" -> 3
 PromoW(f) ==
   { LET b1 == Put(Put(Put(EmptyBoard, wk, "K"), bk, "k"), SqOf(6, f), "P")
         b2 == IF f > 0 /\ b1[SqOf(7, f - 1)] = Empty THEN Put(b1, SqOf(7, f - 1), a[1]) ELSE b1
@@ -76,7 +78,7 @@ PromoW(f) ==
       <<wk, bk, a>> \in
         { t \in {0, 4, 20, 27, 38, 47, 49, 30} \X {60, 62, 58, 43, 37, 24, 15, 34} \X (PromoAhead \X PromoAhead \X PromoAhead) :
             /\ t[1] # t[2] /\ t[2] \notin KingT[t[1]] /\ SqOf(6, f) \notin {t[1], t[2]}
-            /\ Sel(t[1] + t[2] * 3 + f) } }
+            /\ Sel(Mix(t[1], t[2], f, AheadIdx(t[3][1]) * 16 + AheadIdx(t[3][2]) * 4 + AheadIdx(t[3][3]))) } }
 Promo(f) == PromoW(f) \cup { Mirror(p) : p \in PromoW(f) }
 
 ---------------------------------------------------------------------------
